@@ -7,6 +7,7 @@
 From Coq Require Import NArith ZArith List Bool Permutation.
 From Tinode Require Import Pure.Ring Pure.RingProofs Sys.Election Sys.ElectionProofs Sys.Gate Sys.GateProofs.
 From Tinode Require Import Sys.ElectionC17b Sys.ElectionC17bProofs.
+From Tinode Require Import Sys.VoteTallyC17e Sys.VoteTallyC17eProofs.
 Import ListNotations.
 
 (* ------------------------------------------------------------------ *)
@@ -655,3 +656,126 @@ Theorem c17_part_lonely_leader_stops : forall cfg,
                  (well_formed_c17b root r = true -> client_request_c17b cfg (run cfg evs') n root r = RepliedD 502).
 Proof. exact lonely_leader_stops. Qed.
 Print Assumptions c17_part_lonely_leader_stops.
+
+(* ------------------------------------------------------------------ *)
+(* E. one run of electLeader over the replies that actually arrive (model
+   Sys/VoteTallyC17e.v; added when the seeded change C17-r4-1 - one response struct
+   shared by all Cluster.Vote calls - was missed).  [c] = the candidate: its name, its
+   term and leader on entry, c.nodes with their connected flags (ANY number of nodes);
+   [arr] = the replies of the connected nodes as electLeader finds them in call.Error /
+   call.Reply, in their order of arrival on the done channel (YES with a term, NO with a
+   term, error); a reply that is late is not in the list (the timer case ends the loop). *)
+
+(* the candidate ends as leader of its new term or with no leader, and the term is the
+   old one plus one, whatever arrives *)
+Theorem c17_elect_outcome : forall c arr,
+  oc_term (elect_c17e c arr) = S (cd_term c) /\
+  (oc_leader (elect_c17e c arr) = Some (cd_self c) \/ oc_leader (elect_c17e c arr) = None).
+Proof. intros c arr. exact (conj (term_eq_c17e c arr) (leader_cases_c17e c arr)). Qed.
+Print Assumptions c17_elect_outcome.
+
+(* the threshold as written is the smallest strict majority of ALL configured nodes
+   (the len(c.nodes) others and the candidate), and it is the threshold of Sys/Election.v *)
+Theorem c17_elect_threshold : forall nc,
+  S nc < 2 * expect_c17e nc /\ 2 * (expect_c17e nc - 1) <= S nc.
+Proof. exact expect_majority_c17e. Qed.
+Print Assumptions c17_elect_threshold.
+
+Theorem c17_elect_threshold_is_election : forall cfg n, expect_c17e (node_count cfg n) = expect_votes cfg n.
+Proof. exact expect_is_election_c17e. Qed.
+Print Assumptions c17_elect_threshold_is_election.
+
+(* SAFETY, for every node count and EVERY reply list (any length, any order, any terms in
+   the replies): a candidate that declares itself leader was given YES replies which,
+   with its own vote, are a strict majority of all configured nodes.  NO replies and
+   errors never count. *)
+Theorem c17_leader_only_on_real_majority : forall c arr,
+  oc_leader (elect_c17e c arr) = Some (cd_self c) ->
+  expect_c17e (length (cd_peers c)) <= 1 + count_yes_c17e arr /\
+  S (length (cd_peers c)) < 2 * (1 + count_yes_c17e arr).
+Proof. exact leader_real_majority_c17e. Qed.
+Print Assumptions c17_leader_only_on_real_majority.
+
+(* ... whatever the ORDER of arrival: the count is that of the replies GIVEN *)
+Theorem c17_leader_only_on_real_majority_any_order : forall c arr arr',
+  Permutation arr arr' ->
+  oc_leader (elect_c17e c arr') = Some (cd_self c) ->
+  S (length (cd_peers c)) < 2 * (1 + count_yes_c17e arr).
+Proof. exact leader_any_order_c17e. Qed.
+Print Assumptions c17_leader_only_on_real_majority_any_order.
+
+(* EXACT: with at most one reply per request and no NO reply of a term above the
+   candidate's, the candidate is leader IFF 1 + the YES replies given reach the threshold
+   as written in the code; hence the outcome does not depend on the order of arrival *)
+Theorem c17_leader_iff_real_majority : forall c arr,
+  length (unconnected_c17e (cd_peers c) ++ arr) <= length (cd_peers c) ->
+  (forall rt, In (RNo rt) arr -> rt <= S (cd_term c)) ->
+  (oc_leader (elect_c17e c arr) = Some (cd_self c) <->
+   expect_c17e (length (cd_peers c)) <= 1 + count_yes_c17e arr).
+Proof. exact leader_iff_real_majority_c17e. Qed.
+Print Assumptions c17_leader_iff_real_majority.
+
+Theorem c17_leader_order_independent : forall c arr arr',
+  Permutation arr arr' ->
+  length (unconnected_c17e (cd_peers c) ++ arr) <= length (cd_peers c) ->
+  (forall rt, In (RNo rt) arr -> rt <= S (cd_term c)) ->
+  (oc_leader (elect_c17e c arr) = Some (cd_self c) <-> oc_leader (elect_c17e c arr') = Some (cd_self c)).
+Proof. exact leader_order_independent_c17e. Qed.
+Print Assumptions c17_leader_order_independent.
+
+(* the remaining branch: a NO reply of a later term, taken before the threshold is
+   reached, ends the election without a leader whatever follows *)
+Theorem c17_elect_abandons_on_later_term : forall c pre rt post,
+  S (cd_term c) < rt ->
+  (forall rt', In (RNo rt') pre -> rt' <= S (cd_term c)) ->
+  length (unconnected_c17e (cd_peers c) ++ pre) < length (cd_peers c) ->
+  1 + count_yes_c17e pre < expect_c17e (length (cd_peers c)) ->
+  oc_leader (elect_c17e c (pre ++ RNo rt :: post)) = None.
+Proof. exact leader_abandon_c17e. Qed.
+Print Assumptions c17_elect_abandons_on_later_term.
+
+(* the request side: every request carries the candidate's OWN name and its CURRENT
+   (already incremented) term, and the connected nodes get exactly one request each *)
+Theorem c17_vote_request_names_candidate_and_term : forall c arr,
+  (forall p nm t, In (p, (nm, t)) (oc_requests (elect_c17e c arr)) ->
+     nm = cd_self c /\ t = oc_term (elect_c17e c arr) /\ t = S (cd_term c) /\ In (p, true) (cd_peers c)) /\
+  (forall p, In (p, true) (cd_peers c) -> In (p, (cd_self c, S (cd_term c))) (oc_requests (elect_c17e c arr))) /\
+  map fst (oc_requests (elect_c17e c arr)) = map fst (filter snd (cd_peers c)).
+Proof.
+  intros c arr. exact (conj (requests_ok_c17e c arr) (conj (requests_all_c17e c arr) (requests_receivers_c17e c arr))).
+Qed.
+Print Assumptions c17_vote_request_names_candidate_and_term.
+
+(* NO TWO LEADERS: two candidates (of one term) whose YES replies were really given by
+   voters that give at most one vote ([ballot] is a function of the voter) and that
+   voted for themselves: if both runs of electLeader end with a leader, it is the same
+   node.  Any number of nodes, any replies, any orders of arrival. *)
+Theorem c17_no_two_leaders_on_real_replies : forall nodes ballot c1 c2 ord1 ord2 rep1 rep2,
+  view_ok_c17e nodes ballot c1 ord1 rep1 -> view_ok_c17e nodes ballot c2 ord2 rep2 ->
+  oc_leader (elect_c17e c1 (map rep1 ord1)) = Some (cd_self c1) ->
+  oc_leader (elect_c17e c2 (map rep2 ord2)) = Some (cd_self c2) ->
+  cd_self c1 = cd_self c2.
+Proof. exact no_two_leaders_c17e. Qed.
+Print Assumptions c17_no_two_leaders_on_real_replies.
+
+(* ... with the voters of part B: in ANY reachable state of the election model the ghost
+   [votes s T] (at most one vote per node and term: c17_el_one_vote_per_term, c17_el_grant)
+   is such a ballot *)
+Theorem c17_no_two_leaders_election_votes : forall cfg evs T c1 c2 ord1 ord2 rep1 rep2,
+  NoDup (cfg_nodes cfg) ->
+  view_el_c17e cfg (run cfg evs) T c1 ord1 rep1 -> view_el_c17e cfg (run cfg evs) T c2 ord2 rep2 ->
+  oc_leader (elect_c17e c1 (map rep1 ord1)) = Some (cd_self c1) ->
+  oc_leader (elect_c17e c2 (map rep2 ord2)) = Some (cd_self c2) ->
+  cd_self c1 = cd_self c2 /\ oc_term (elect_c17e c1 (map rep1 ord1)) = oc_term (elect_c17e c2 (map rep2 ord2)).
+Proof. exact no_two_leaders_election_c17e. Qed.
+Print Assumptions c17_no_two_leaders_election_votes.
+
+(* the hypotheses are satisfiable and the statements not vacuous: 5 nodes, candidate 0 of
+   term 1; one YES and three NO replies in either order elect nobody, two YES replies do,
+   and the loop stops at the reply that completes the majority *)
+Example c17_elect_split_vote :
+  oc_leader (elect_c17e demo_cand_c17e [RYes 1; RNo 1; RNo 1; RNo 1]) = None /\
+  oc_leader (elect_c17e demo_cand_c17e [RNo 1; RNo 1; RNo 1; RYes 1]) = None /\
+  oc_leader (elect_c17e demo_cand_c17e [RYes 1; RNo 1; RYes 1]) = Some 0 /\
+  tl_taken (oc_tally (elect_c17e demo_cand_c17e [RYes 1; RNo 1; RYes 1; RNo 1])) = 3.
+Proof. exact demo_split_c17e. Qed.
